@@ -122,6 +122,30 @@ def check_recv(ctx, oid="C17.1"):
     return True
 
 
+MAGICS = {"mainnet": bytes.fromhex("f9beb4d9"), "testnet": bytes.fromhex("0b110907"), "regtest": bytes.fromhex("fabfb5da")}
+
+
+def check_magic_table(ctx, oid="C17.4"):
+    """The network magic every frame (and every block-file record) starts with: set_magic_start_bytes(network) leaves
+    MAGIC_START_BYTES at the magic of that network, for each of the three networks in either letter case, and refuses anything
+    else (shared with C19: the store writes the same constant in front of every record)."""
+    R = ctx.R
+    fi = ctx.fn(P2P + "set_magic_start_bytes")
+    ev = ctx.evaluator()
+    bad = []
+    for net, magic in MAGICS.items():
+        for spelled in (net, net.upper()):
+            s = ev.run(fi, {fi.params()[0]: spelled})
+            kind, val = rules.strict_outcome(s)
+            got = getattr(s, "env", {}).get("MAGIC_START_BYTES")
+            if not (kind == "return" and got == magic):
+                bad.append((spelled, kind, tm.show(got)[:40]))
+    R.check(oid, "TABLE", fi, "set_magic_start_bytes: mainnet f9beb4d9, testnet 0b110907, regtest fabfb5da (either case)", not bad,
+            "set_magic_start_bytes(%r) is %s and leaves the magic at %s" % (bad[0] if bad else ("", "", "")), example="a regtest node")
+    kind, val = rules.strict_outcome(ev.run(fi, {fi.params()[0]: "signet"}))
+    R.check(oid, "TABLE", fi, "an unknown network is refused", kind == "raise", "set_magic_start_bytes('signet') %s" % kind, nontrivial=False)
+
+
 def check_msg_ser(ctx, oid="C17.4"):
     """msg_ser on every command of the table (bytes and str), with arbitrary magic and payloads of fixed lengths."""
     R = ctx.R
@@ -228,6 +252,7 @@ def run(ctx):
             example="the same call repeated in one process after a call with other arguments / a failed call")
 
     check_msg_ser(ctx)
+    check_magic_table(ctx)
     check_version_codec(ctx)
     check_getheaders_codec(ctx)
     check_inv_addr_ping(ctx)
